@@ -143,7 +143,17 @@ WithOnlyPref(p, a, x) ==
                       ELSE IF i < a /\ Prio[i] < Prio[a] THEN [p[i] EXCEPT !.pref = None]
                       ELSE p[i]]
 
+\* Zero inside the exclusion zone: C03 allows a zero target, C04 speaks of "minus the exclusion
+\* zone".  Where the zone lies inside the inclusion bounds (the documented SystemBounds shape)
+\* the design adopts a zero preference and the clauses pin that; where the inclusion bounds end
+\* inside the zone either outcome is accepted (weakest reading).
+ZeroUndetermined(x, s) == x = 0 /\ InZone(0, s) /\ ~(s.lo <= s.xlo /\ s.xhi <= s.hi)
+
 \* "x is adopted unchanged" predicate of the reported range b = <<lo, hi>> for actor a
 InReported(x, b, s) == b[1] # None /\ b[1] <= x /\ x <= b[2] /\ (x = 0 \/ ~InZone(x, s))
+
+\* the values an actor may rely on being adopted unchanged, as a set (two reports are
+\* equivalent iff these sets are equal)
+ReportedSet(b, s) == {x \in Grid : InReported(x, b, s) /\ ~ZeroUndetermined(x, s)}
 
 =============================================================================
